@@ -550,9 +550,113 @@ def main(rec):
         for v in rr["violations"]:
             rec.violation(v["mech"], v["detail"], v.get("case"))
     rec.evaluations += len(hv)
+    # names that differ by scope
+    tys = ["int", "long", "double", "short", "float", "unsigned int"]
+    sc = []
+    for k in range(24 if thorough else 8):
+        rr_ = common.rng("c09scoped", k)
+        nns = rr_.choice([2, 2, 3])
+        spaces = []
+        for i in range(nns):
+            spaces.append(("ns%s" % "abc"[i], {"Index": tys[(k + 2 * i) % len(tys)], "Real": tys[(k + 2 * i + 1) % len(tys)]} if k % 2 else {"Index": tys[(k + i) % len(tys)]}))
+        sc.append({"name": "scoped%d" % k, "spaces": spaces, "class_last": bool(k % 3 == 0),
+                   "global": ({"Index": tys[(k + 5) % len(tys)]} if k % 4 == 1 else None)})
+    sres = pool.run_cases("vf.checks.c09", sc, func="run_scoped", timeout=600)
+    for c, rr in zip(sc, sres):
+        if "stats" not in rr:
+            workloads.bad_run(rec, c, rr)
+            continue
+        rec.merge_stats(rr["stats"])
+        for v in rr["violations"]:
+            rec.violation(v["mech"], v["detail"], c)
     rec.distinct_override = rec.counters.get("accepted", 0) + rec.counters.get("online_roundtrips", 0)
     if rec.counters.get("gxx_asserts", 0) == 0:
         rec.inconclusive = "no g++ assertion was generated"
+
+
+def run_scoped(case):
+    """Unqualified names that mean different things in different scopes (namespace-level typedefs of the same name used
+    by classes and functions of each namespace): the whole pipeline runs and g++ compares every emitted C prototype
+    with the type the compiler derives from the library header."""
+    from .. import shroudrun, engine
+    import subprocess
+    spaces = case["spaces"]            # [(namespace, {typedef name: underlying type}), ...] in declaration order
+    res = {"violations": [], "stats": {}, "name": case["name"]}
+    hdr, decls, asserts = ["#ifndef SCO_HPP", "#define SCO_HPP"], [], []
+    glob = case.get("global") or {}
+    for tn, ty in glob.items():
+        hdr.append("typedef %s %s;" % (ty, tn))
+        decls.append({"decl": "typedef %s %s" % (ty, tn)})
+    for tn in glob:
+        hdr.append("%s gfun_%s(%s a);" % (tn, tn.lower(), tn))
+        decls.append({"decl": "%s gfun_%s(%s a)" % (tn, tn.lower(), tn)})
+        asserts.append(("SCO_gfun_%s" % tn.lower(), "%s(%s)" % (tn, tn)))
+    for ns, tds in spaces:
+        hdr.append("namespace %s {" % ns)
+        nd = []
+        for tn, ty in tds.items():
+            hdr.append("  typedef %s %s;" % (ty, tn))
+            nd.append({"decl": "typedef %s %s" % (ty, tn)})
+        names = list(tds)
+        hdr.append("  class Bag { public: Bag();")
+        cd = [{"decl": "Bag()"}]
+        for tn in names:
+            hdr.append("    %s next_%s(%s i); void put_%s(const %s *p, %s v);" % (tn, tn.lower(), tn, tn.lower(), tn, tn))
+            cd.append({"decl": "%s next_%s(%s i)" % (tn, tn.lower(), tn)})
+            cd.append({"decl": "void put_%s(const %s *p, %s v)" % (tn.lower(), tn, tn)})
+            asserts.append(("SCO_%s_Bag_next_%s" % (ns, tn.lower()), "%s::%s(SCO_%s_Bag *, %s::%s)" % (ns, tn, ns, ns, tn)))
+            asserts.append(("SCO_%s_Bag_put_%s" % (ns, tn.lower()), "void(SCO_%s_Bag *, const %s::%s *, %s::%s)" % (ns, ns, tn, ns, tn)))
+        hdr.append("  };")
+        for tn in names:
+            hdr.append("  %s fun_%s(%s a, %s *b);" % (tn, tn.lower(), tn, tn))
+            nd.append({"decl": "%s fun_%s(%s a, %s *b +intent(inout))" % (tn, tn.lower(), tn, tn)})
+            asserts.append(("SCO_%s_fun_%s" % (ns, tn.lower()), "%s::%s(%s::%s, %s::%s *)" % (ns, tn, ns, tn, ns, tn)))
+        nd.insert(len(tds), {"decl": "class Bag", "declarations": cd})
+        if case.get("class_last"):
+            nd.append(nd.pop(len(tds)))
+        hdr.append("}")
+        decls.append({"decl": "namespace %s" % ns, "declarations": nd})
+    hdr.append("#endif")
+    y = {"library": "sco", "cxx_header": "sco.hpp", "language": "c++",
+         "options": {"wrap_c": True, "wrap_fortran": False, "wrap_python": False, "wrap_lua": False}, "declarations": decls}
+    sp = {"name": case["name"], "files": {"work/sco.yaml": workloads.dump_yaml(y)}, "dirs": ["out"],
+          "argv": ["--outdir", "out", "--logdir", "out", "work/sco.yaml"], "monitors": [], "keep": True}
+    rr = shroudrun.run(sp)
+    cwd = rr.get("cwd")
+    try:
+        if rr.get("exc") or rr.get("exit") != 0:
+            k_, t_ = engine.reject_mech(rr)
+            res["violations"].append({"mech": "scoped:shroud-rejects:" + k_, "detail": "%s: %s\n%s" % (case["name"], t_, workloads.dump_yaml(y)[:1500])})
+            return res
+        out = os.path.join(cwd, "out")
+        open(os.path.join(out, "sco.hpp"), "w").write("\n".join(hdr) + "\n")
+        heads = sorted(f for f in os.listdir(out) if f.startswith("wrap") and f.endswith(".h"))
+        chk = ['#include <type_traits>', '#include "sco.hpp"'] + ['#include "%s"' % h for h in heads]
+        for i, (cname, ftype) in enumerate(asserts):
+            chk.append('static_assert(std::is_same<decltype(%s), %s>::value, "VFASSERT %d");' % (cname, ftype, i))
+        open(os.path.join(out, "chk.cpp"), "w").write("\n".join(chk) + "\n")
+        p = subprocess.run(["g++", "-std=c++11", "-fsyntax-only", "-w", "-I", ".", "chk.cpp"], cwd=out, capture_output=True, text=True, timeout=300)
+        res["stats"]["scoped_prototypes_checked"] = len(asserts)
+        failed = sorted({int(x) for x in re.findall(r"VFASSERT (\d+)", p.stderr)})
+        other = [ln for ln in p.stderr.split("\n") if "error" in ln and "VFASSERT" not in ln and "static assertion" not in ln][:4]
+        for i in failed:
+            cname, ftype = asserts[i]
+            proto = re.search(r"[^;{}]*\b%s\([^;]*;" % re.escape(cname), "\n".join(open(os.path.join(out, h)).read() for h in heads))
+            res["violations"].append({"mech": "scoped-name-resolves-differently:%s" % ("method" if "_Bag_" in cname else "function"),
+                                      "detail": "%s: %s is declared %r; the compiler derives %s from the library header" % (
+                                          case["name"], cname, " ".join((proto.group(0) if proto else "?").split()), ftype)})
+        if other and not failed:
+            res["violations"].append({"mech": "scoped:checker-does-not-compile", "detail": "%s\n%s" % (case["name"], "\n".join(other))})
+        # the wrapper implementation must compile against the library header too
+        for f in sorted(x for x in os.listdir(out) if x.startswith("wrap") and x.endswith(".cpp")):
+            q = subprocess.run(["g++", "-std=c++11", "-fsyntax-only", "-w", "-I", ".", f], cwd=out, capture_output=True, text=True, timeout=300)
+            if q.returncode != 0:
+                w_, m_ = engine.first_error(q.stderr)
+                res["violations"].append({"mech": "scoped:wrapper-does-not-compile:%s" % m_, "detail": "%s %s\n%s" % (case["name"], f, q.stderr[:1500])})
+        return res
+    finally:
+        if cwd:
+            common.rmtree(cwd)
 
 
 def replay(bundle):
